@@ -309,9 +309,9 @@ func (vf *VersionedFetcher) seekNext(c cid.Cid, topParent bool) error {
 		return NewErrVFetcherFailedToDecodeNode(err)
 	}
 
-	// only seekNext on parent if we have a HEAD link
-	if len(block.Heads) != 0 {
-		err := vf.seekNext(block.Heads[0].Cid, true)
+	// seekNext on every parent, so that merged (multi-head) histories are fully collected
+	for _, h := range block.Heads {
+		err := vf.seekNext(h.Cid, true)
 		if err != nil {
 			return err
 		}
@@ -407,9 +407,10 @@ func (vf *VersionedFetcher) merge(c cid.Cid) error {
 		return err
 	}
 
-	// handle subgraphs
-	for _, l := range block.AllLinks() {
-		err = vf.merge(l.Cid)
+	// handle subgraphs, the heads are not included here as every ancestor
+	// has been queued by seekNext and is merged exactly once by seekTo
+	for _, l := range block.Links {
+		err = vf.merge(l.Link.Cid)
 		if err != nil {
 			return err
 		}
